@@ -14,6 +14,20 @@ import (
 type ModSet struct {
 	Top  bool
 	Fams map[string]Sort
+	// NonFresh[f]: some write to family f may hit an object that existed before the call.
+	// Families in Fams but not in NonFresh are only written at objects allocated during the call.
+	NonFresh map[string]bool
+}
+
+func (m *ModSet) markNonFresh(f string) bool {
+	if m.NonFresh == nil {
+		m.NonFresh = map[string]bool{}
+	}
+	if m.NonFresh[f] {
+		return false
+	}
+	m.NonFresh[f] = true
+	return true
 }
 
 func (m *ModSet) add(f string, s Sort) bool {
@@ -41,6 +55,9 @@ func (m *ModSet) union(o *ModSet) bool {
 		if m.add(f, s) {
 			ch = true
 		}
+		if o.NonFresh[f] && m.markNonFresh(f) {
+			ch = true
+		}
 	}
 	return ch
 }
@@ -52,6 +69,9 @@ type ModInfo struct {
 	escFields map[string]map[string]Sort
 	escElems  map[string]bool
 	reads     map[*ssa.Function]*ModSet
+	emits     map[*ssa.Function]*emitSet
+	rawMods   map[*ssa.Function]*ModSet
+	checkPureDecls func()
 }
 
 // externalTopPkgs: packages whose functions may write module-typed heap through
@@ -201,6 +221,7 @@ func elemTypeOfAddr(v ssa.Value) types.Type {
 func (mi *ModInfo) ownMods(f *ssa.Function) *ModSet {
 	ms := &ModSet{Fams: map[string]Sort{}}
 	tmp := map[string]Sort{}
+	nonFresh := map[string]bool{}
 	invisible := invisibleAllocs(f)
 	for _, b := range f.Blocks {
 		for _, ins := range b.Instrs {
@@ -210,10 +231,26 @@ func (mi *ModInfo) ownMods(f *ssa.Function) *ModSet {
 				if r := allocRoot(x.Addr, 0); r != nil && invisible[r] {
 					continue
 				}
-				mi.storeTargetFams(x.Addr, tmp)
+				one := map[string]Sort{}
+				mi.storeTargetFams(x.Addr, one)
+				fresh := freshAddr(x.Addr, 0)
+				for k, so := range one {
+					tmp[k] = so
+					if !fresh {
+						nonFresh[k] = true
+					}
+				}
 			case *ssa.MapUpdate:
 				if m, ok := under(x.Map.Type()).(*types.Map); ok {
-					mapFams(m, tmp)
+					one := map[string]Sort{}
+					mapFams(m, one)
+					_, fresh := x.Map.(*ssa.MakeMap)
+					for k, so := range one {
+						tmp[k] = so
+						if !fresh {
+							nonFresh[k] = true
+						}
+					}
 				}
 			case ssa.CallInstruction:
 				c := x.Common()
@@ -222,16 +259,29 @@ func (mi *ModInfo) ownMods(f *ssa.Function) *ModSet {
 					case "append", "copy":
 						if len(c.Args) > 0 {
 							if sl, ok := under(c.Args[0].Type()).(*types.Slice); ok {
-								elemStoreFams(sl.Elem(), tmp)
+								one := map[string]Sort{}
+								elemStoreFams(sl.Elem(), one)
+								for k, so := range one {
+									tmp[k] = so
+									// append writes the (modelled) fresh backing array only; copy writes its destination
+									if bi.Name() == "copy" && !freshSlice(c.Args[0], 0) {
+										nonFresh[k] = true
+									}
+								}
 							}
 						}
 					case "delete", "clear":
 						if len(c.Args) > 0 {
+							one := map[string]Sort{}
 							if m, ok := under(c.Args[0].Type()).(*types.Map); ok {
-								mapFams(m, tmp)
+								mapFams(m, one)
 							}
 							if sl, ok := under(c.Args[0].Type()).(*types.Slice); ok {
-								elemStoreFams(sl.Elem(), tmp)
+								elemStoreFams(sl.Elem(), one)
+							}
+							for k, so := range one {
+								tmp[k] = so
+								nonFresh[k] = true
 							}
 						}
 					}
@@ -243,8 +293,52 @@ func (mi *ModInfo) ownMods(f *ssa.Function) *ModSet {
 	}
 	for k, s := range tmp {
 		ms.add(k, s)
+		if nonFresh[k] {
+			ms.markNonFresh(k)
+		}
 	}
 	return ms
+}
+
+// freshAddr: the address denotes a cell of an object allocated by this very function.
+func freshAddr(v ssa.Value, depth int) bool {
+	if depth > 8 {
+		return false
+	}
+	switch x := v.(type) {
+	case *ssa.Alloc:
+		return true
+	case *ssa.FieldAddr:
+		return freshAddr(x.X, depth+1)
+	case *ssa.IndexAddr:
+		if _, isPtr := under(x.X.Type()).(*types.Pointer); isPtr {
+			return freshAddr(x.X, depth+1)
+		}
+		return freshSlice(x.X, depth+1)
+	}
+	return false
+}
+
+func freshSlice(v ssa.Value, depth int) bool {
+	if depth > 8 {
+		return false
+	}
+	switch x := v.(type) {
+	case *ssa.MakeSlice:
+		return true
+	case *ssa.Slice:
+		if _, isPtr := under(x.X.Type()).(*types.Pointer); isPtr {
+			return freshAddr(x.X, depth+1)
+		}
+		return freshSlice(x.X, depth+1)
+	case *ssa.Call:
+		if bi, ok := x.Call.Value.(*ssa.Builtin); ok && bi.Name() == "append" {
+			return true
+		}
+	case *ssa.ChangeType:
+		return freshSlice(x.X, depth+1)
+	}
+	return false
 }
 
 func (mi *ModInfo) storeTargetFams(addr ssa.Value, out map[string]Sort) {
@@ -297,6 +391,15 @@ func storeFamsNamed(t types.Type, fam string, _ Sort, out map[string]Sort) {
 }
 
 func (w *World) ComputeMods() *ModInfo {
+	raw := w.computeModsImpl(false)
+	mi := w.computeModsImpl(true)
+	mi.rawMods = raw.mods
+	w.PureUnverified = nil
+	mi.checkPureDecls()
+	return mi
+}
+
+func (w *World) computeModsImpl(withOverrides bool) *ModInfo {
 	mi := &ModInfo{w: w, mods: map[*ssa.Function]*ModSet{}, escFields: map[string]map[string]Sort{}, escElems: map[string]bool{}}
 	// pass 0: escaping field / element addresses
 	for _, f := range w.AllFns {
@@ -361,9 +464,39 @@ func (w *World) ComputeMods() *ModInfo {
 			mi.mods[f] = mi.ownMods(f)
 		}
 	}
-	// contract overrides
+	// contract overrides (after a first fixpoint that is used to check the "pure" declarations)
+	mi.checkPureDecls = func() {
+		if w.Contracts == nil {
+			return
+		}
+		for f, c := range w.Contracts.ByFunc {
+			if !(c.Pure || c.AssignsNothing) || c.Trusted || !w.InModule(f) {
+				continue
+			}
+			ms := mi.rawMods[f]
+			if ms == nil {
+				continue
+			}
+			if ms.Top {
+				w.PureUnverified = append(w.PureUnverified, FuncKey(f)+": effect unknown (calls code outside the analysed effect model)")
+				continue
+			}
+			var bad []string
+			for fam := range ms.NonFresh {
+				bad = append(bad, fam)
+			}
+			sort.Strings(bad)
+			if len(bad) > 0 {
+				if len(bad) > 4 {
+					bad = append(bad[:4], "...")
+				}
+				w.PureUnverified = append(w.PureUnverified, FuncKey(f)+": may write pre-existing "+strings.Join(bad, ","))
+			}
+		}
+		sort.Strings(w.PureUnverified)
+	}
 	override := map[*ssa.Function]bool{}
-	if w.Contracts != nil {
+	if w.Contracts != nil && withOverrides {
 		for f, c := range w.Contracts.ByFunc {
 			if c.Pure || c.AssignsNothing {
 				mi.mods[f] = &ModSet{Fams: map[string]Sort{}}
@@ -435,7 +568,7 @@ func (w *World) ComputeMods() *ModInfo {
 					if ms.union(cm) {
 						changed = true
 					}
-				} else if w.Contracts != nil && w.Contracts.ByFunc[cal] != nil && (w.Contracts.ByFunc[cal].Pure || w.Contracts.ByFunc[cal].AssignsNothing) {
+				} else if w.Contracts != nil && w.Contracts.ByFunc[cal] != nil && (w.Contracts.ByFunc[cal].Pure || w.Contracts.ByFunc[cal].AssignsNothing) && (withOverrides || !w.InModule(cal)) {
 					// stubbed as pure
 				} else if len(cal.Blocks) == 0 && w.InModule(cal) {
 					// no body in module (should not happen)
